@@ -176,6 +176,17 @@ def success_children(op, objs):
               X.PARAMVALUE('EndOfSequence', X.VALUE('TRUE' if eos else 'FALSE'), 'boolean')]
         ch.append(X.PARAMVALUE('EnumerationContext', None if eos else X.VALUE(objs.get('ctx', 'ctx-1')), 'string'))
         return ch
+    if op in ('OpenQueryInstances', 'PullInstances'):
+        # query results: plain INSTANCE elements, i.e. instances WITHOUT a path
+        eos = objs.get('eos', True)
+        ch = [X.IRETURNVALUE([i.tocimxml(ignore_path=True) for i in objs['insts']]),
+              X.PARAMVALUE('EndOfSequence', X.VALUE('TRUE' if eos else 'FALSE'), 'boolean'),
+              X.PARAMVALUE('EnumerationContext', None if eos else X.VALUE(objs.get('ctx', 'ctx-1')), 'string')]
+        if op == 'OpenQueryInstances' and objs.get('rqrc'):
+            k = objs['klass'].copy()
+            k.path = None
+            ch.append(X.PARAMVALUE('QueryResultClass', k.tocimxml()))
+        return ch
     if op == 'GetClass':
         return [X.IRETURNVALUE([objs['klass'].tocimxml()])]
     if op == 'EnumerateClasses':
